@@ -137,6 +137,22 @@ def run_case(case, drv):
             res.fail("container:J-pattern", "Q/J not symmetric for pattern symmetric")
         if pl not in ("upper-triangular", "symmetric") and iQ != M:
             res.fail("container:other-pattern", f"pattern {pat!r} changed the matrix")
+        # the container is used in its other ways first (export in both forms, report, objective closures): its values must
+        # afterwards still be those of the original matrix and constant
+        other_use = (sum(len(t) for t in case["M"][0]) + r) % 3 if case.get("M") else 0
+        if other_use and r >= 1:
+            import tempfile, os
+            with tempfile.TemporaryDirectory(prefix="vh_c13_") as d_:
+                try:
+                    C.export(os.path.join(d_, "a.qubo"), as_ising=False)
+                    if other_use == 2:
+                        C.export(os.path.join(d_, "a.rudy"), as_ising=True)
+                        C.export(os.path.join(d_, "b.qubo"), as_ising=False)
+                    if r <= 10:
+                        C.report(True)
+                except Exception as e:  # noqa
+                    res.fail("container:other-use-raises", f"export/report raised {e!r}")
+            res.features.append(f"container-used-otherwise-first:{other_use}")
         if r <= 7:
             for x in G.all_binary(r):
                 xv = np.array(x)
